@@ -196,3 +196,63 @@ def r4(case, rec):
             d = O.same(y['result'], x['result'], TOL)
             if d:
                 raise Violation('%s (%s) returns a different value under PYTHONHASHSEED=%s than under %s: %s' % (a['op'], describe(a), hs, case['seeds'][0], d), op=a['op'])
+
+
+@st.composite
+def edit_case(draw):
+    shape = draw(st.lists(st.integers(3, 7), min_size=1, max_size=3))
+    return dict(shape=shape, seed=draw(st.integers(0, 10 ** 6)), which=draw(st.sampled_from(['project', 'fold', 'stats', 'll', 'll_multinom', 'marginalize', 'sample'])),
+                edit=draw(st.sampled_from(['mask', 'unmask', 'value', 'both'])), pos=draw(st.integers(0, 10 ** 6)), folded_data=draw(st.booleans()))
+
+
+@REG.relation('R5-edit-and-reuse', strategy=edit_case, quick=(1500, 16), thorough=(30000, 16))
+def r5(case, rec):
+    """A spectrum object that is used, then edited in place (an entry masked or unmasked, a count overwritten - the usual
+    data.mask[1] = True idiom), then used again gives what a freshly built spectrum with the same content gives: nothing about the
+    object is remembered across calls."""
+    import dadi
+    from dadi import Inference
+    shape = tuple(case['shape'])
+    fs = O._fs(list(shape), case['seed'], False, True, True, 'C', integer=True)
+    model = O._fs(list(shape), case['seed'] + 7, False, False, True, 'C')
+    if case['folded_data'] and case['which'] in ('ll', 'll_multinom'):
+        fs = fs.fold()
+    rec.case(case, True, [case['which'], case['edit'], 'dim=%d' % len(shape)])
+
+    def use(x):
+        w = case['which']
+        if w == 'project':
+            return O.canon(x.project([max(1, n - 1) for n in x.sample_sizes]))
+        if w == 'fold':
+            return O.canon(x.fold()) if not x.folded else O.canon(x.unfold())
+        if w == 'stats':
+            return O.canon([x.S(), x.pi() if x.ndim == 1 else None, x.Fst() if x.ndim >= 2 else None])
+        if w == 'marginalize':
+            return O.canon(x.marginalize([0]) if x.ndim > 1 else x.S())
+        if w == 'sample':
+            np.random.seed(case['seed'] % 1000)
+            return O.canon(x.sample())
+        try:
+            return O.canon(float(getattr(Inference, w)(model, x)))
+        except Exception as e:      # e.g. no jointly unmasked entry: must fail identically for the fresh object
+            return 'raises %s' % type(e).__name__
+    first = use(fs)
+    flat_idx = [i for i in range(1, fs.size - 1)]
+    if not flat_idx:
+        raise Reject('no interior entry')
+    idx = np.unravel_index(flat_idx[case['pos'] % len(flat_idx)], shape)
+    idx2 = np.unravel_index(flat_idx[(case['pos'] // 7) % len(flat_idx)], shape)
+    if case['edit'] in ('mask', 'both'):
+        fs.mask[idx] = True
+    if case['edit'] == 'unmask':
+        fs.mask[idx] = False
+    if case['edit'] in ('value', 'both'):
+        fs.data[idx2] = float(fs.data[idx2]) + 5.0
+    second = use(fs)
+    fresh = dadi.Spectrum(np.array(fs.data, copy=True), mask=np.array(fs.mask, copy=True), mask_corners=False, data_folded=bool(fs.folded),
+                          pop_ids=list(fs.pop_ids) if fs.pop_ids is not None else None)
+    ref = use(fresh)
+    d = O.same(second, ref, 1e-12)
+    if d:
+        raise Violation('%s on a spectrum that was used, then edited in place (%s), differs from the same call on a freshly built spectrum '
+                        'with the same content: %s' % (case['which'], case['edit'], d), op=case['which'])
